@@ -26,6 +26,7 @@ type driver struct {
 	cur     model.Heap
 	big     bool
 	bigObj  bool
+	pending *model.Op
 	maxList int
 	w       *bufio.Writer
 	steps   int
@@ -289,6 +290,11 @@ func (d *driver) pickOp() (model.Op, bool) {
 	lists, objs := d.ids("L"), d.ids("O")
 	none := model.Val{K: "none"}
 	mk := func(op string, r int) model.Op { return model.Op{Op: op, R: r, V: none} }
+	if d.pending != nil {
+		o := *d.pending
+		d.pending = nil
+		return o, true
+	}
 	ctorOdds := 8
 	if d.big {
 		ctorOdds = 4
@@ -404,6 +410,9 @@ func (d *driver) pickOp() (model.Op, bool) {
 			if d.sortDomain(r) {
 				return mk("Sort", r), true
 			}
+			if n > 0 {
+				return mk("SortAny", r), true
+			}
 			return mk("Reverse", r), true
 		case c < 21:
 			o := mk("SubList", r)
@@ -449,6 +458,8 @@ func (d *driver) pickOp() (model.Op, bool) {
 				for k := 1; k <= d.nkeys; k++ {
 					o.Vs = append(o.Vs, model.Val{K: "str", V: k}, d.scalar())
 				}
+				// ... and right after it an asynchronous walk over the now full object
+				d.pending = &model.Op{Op: "ForEach", R: r, I: 8, V: none}
 				return o, true
 			}
 			o := mk("Unset", r)
